@@ -12,3 +12,8 @@ GROUPS = [
     _c('C13.O3.cancel_remove_subscribe', 'h_admin', 'H_ADMIN', '<= 3 waiters; cancel / remove of any process; subscribe / unsubscribe'),
     _c('C13.O2.forwarded_signal', 'h_forward', 'H_FORWARD', '<= 3 waiters; one observed guard signalled'),
 ]
+
+# the same signal obligations with the hashheap stub reduced to the CONTRACT of remove: arbitrary layout of the remaining waiters
+# after every removal (the two-pass structure of cmb_condition_signal is what makes it independent of the reshuffling)
+GROUPS += [_c('C13.O1.condition_signal.anylayout', 'h_signal', 'H_SIGNAL', '<= 3 waiters, arbitrary predicates / priorities / entry times; arbitrary re-layout of the waiting list after every removal')]
+GROUPS[-1].defines.append('CMV_HH_ANY_LAYOUT')
